@@ -130,12 +130,15 @@ struct AResolver : public EntityResolver, public XMLEntityResolver, public DOMLS
 
 // ------------------------------------------------------------------------------------------------ configuration space
 // resolver dimension: (API, flavour, mode)
-struct ResDim { int api; int flavour; /*0 none 1 SAX EntityResolver 2 XMLEntityResolver 3 DOMLSResourceResolver*/ int mode; /*1 source 2 null*/ const char* name; };
+struct ResDim { int api; int flavour; /*0 none 1 SAX EntityResolver 2 XMLEntityResolver 3 DOMLSResourceResolver*/ int mode; /*1 source for top-level references 2 null 3 source for every reference that has nested references*/ const char* name; };
 static const ResDim RES[] = {
     {SAX2, 0, 0, "none@SAX2"}, {SAX1, 0, 0, "none@SAX1"}, {DOM, 0, 0, "none@DOM"}, {DOMLS, 0, 0, "none@DOMLS"},
     {SAX1, 1, 1, "sax-source@SAX1"}, {SAX2, 1, 2, "sax-null@SAX2"},
     {DOM, 2, 1, "xml-source@DOM"}, {SAX2, 2, 2, "xml-null@SAX2"}, {SAX2, 2, 1, "xml-source@SAX2"}, {DOMLS, 2, 2, "xml-null@DOMLS"},
     {DOMLS, 3, 1, "ls-source@DOMLS"}, {DOMLS, 3, 2, "ls-null@DOMLS"},
+    // mode 3: the resolver supplies every reference that itself contains references (container entities, schema documents with directives or a
+    // DOCTYPE), at whatever depth, and declines the leaves: with disableDefaultEntityResolution nothing at all may then be opened by default
+    {SAX2, 2, 3, "xml-source-for-containers@SAX2"}, {DOMLS, 3, 3, "ls-source-for-containers@DOMLS"},
 };
 static const int NRES = sizeof(RES) / sizeof(RES[0]);
 
@@ -153,7 +156,7 @@ static int g_nres = NRES;
 static bool g_gating32 = false;  // scanner x {disableDefaultEntityResolution, loadExternalDTD, loadSchema}; validation never, doSchema on, no resolver, SAX2
 static bool g_resolver96 = false;  // scanner x disableDefaultEntityResolution x the 12 (API, resolver) settings; validation auto, everything else permissive, file: URL base
 static bool g_gating192 = false;  // like "gating" with standard-uri-conformant off and the plain-path document base (the two most significant digits fixed at 0)
-static uint64_t ncfg() { return g_gating32 ? 32 : g_resolver96 ? 96 : g_gating192 ? 192 : 2ull * 2 * 3 * 2 * 2 * 4 * 2 * 2 * g_nres; }
+static uint64_t ncfg() { return g_gating32 ? 32 : g_resolver96 ? 8ull * NRES : g_gating192 ? 192 : 2ull * 2 * 3 * 2 * 2 * 4 * 2 * 2 * g_nres; }
 static ACfg cfg_at(uint64_t i) {
     ACfg c;
     if (g_gating32) {
@@ -184,9 +187,10 @@ static ACfg cfg_at(uint64_t i) {
 }
 
 // ------------------------------------------------------------------------------------------------ token alphabet
-enum Kind { K_EXTSUB_SYS, K_EXTSUB_PUB, K_GE_USED, K_GE_DECL, K_GE_ATTR, K_PE, K_SCHEMALOC, K_NONS, K_IMPORT, K_INCLUDE, K_REDEFINE, K_SCHEMA_DOCTYPE, K_GE_VIA_PE, K_PE_VIA_PE, NKIND };
+enum Kind { K_EXTSUB_SYS, K_EXTSUB_PUB, K_GE_USED, K_GE_DECL, K_GE_ATTR, K_PE, K_SCHEMALOC, K_NONS, K_IMPORT, K_INCLUDE, K_REDEFINE, K_SCHEMA_DOCTYPE, K_GE_VIA_PE, K_PE_VIA_PE, K_IMPORT_DT, K_INCLUDE_DT, K_REDEFINE_DT, NKIND };
 static const char* KindName[] = {"extsubset-SYSTEM", "extsubset-PUBLIC", "GE-declared+used", "GE-declared-only", "GE-in-attribute", "PE", "xsi:schemaLocation", "xsi:noNamespaceSchemaLocation",
-                                 "xs:import", "xs:include", "xs:redefine", "schema-with-DOCTYPE", "GE-declared-through-internal-PE+used", "PE-declared-through-internal-PE"};
+                                 "xs:import", "xs:include", "xs:redefine", "schema-with-DOCTYPE", "GE-declared-through-internal-PE+used", "PE-declared-through-internal-PE",
+                                 "xs:import-of-schema-with-DOCTYPE", "xs:include-of-schema-with-DOCTYPE", "xs:redefine-of-schema-with-DOCTYPE"};
 enum IdKind { I_SAMEDIR, I_SUBDIR, I_PARENT, I_FILEURL, I_HTTP, I_NESTED, NIDKIND };
 static const char* IdName[] = {"a.x", "sub/b.x", "../c.x", "file:///v/d.x", "http://h/e.x", "relative-inside-/v/sub/"};
 static const int NTOK = NKIND * NIDKIND;
@@ -393,10 +397,18 @@ static Built build(const std::vector<int>& word, bool urlBase) {
             }
             break;
         }
+        case K_IMPORT_DT:
+        case K_INCLUDE_DT:
+        case K_REDEFINE_DT:
         case K_IMPORT:
         case K_INCLUDE:
         case K_REDEFINE:
         case K_SCHEMA_DOCTYPE: {
+            // *_DT: the schema document reached through the directive has itself a DOCTYPE with an external subset (a third-level reference read by
+            // the helper parser of the schema traverser)
+            bool leafDt = kind == K_IMPORT_DT || kind == K_INCLUDE_DT || kind == K_REDEFINE_DT;
+            if (leafDt) kind = kind == K_IMPORT_DT ? K_IMPORT : kind == K_INCLUDE_DT ? K_INCLUDE : K_REDEFINE;
+            std::string leafDoctype = leafDt ? "<!DOCTYPE xs:schema SYSTEM \"q" + p + ".dtd\">" : "";
             std::string mtns = "urn:m" + p;
             std::string mraw = (nested ? "sub/m" : "m") + p + ".xsd";
             std::string ext = kind == K_SCHEMA_DOCTYPE ? "dtd" : "xsd";
@@ -405,14 +417,18 @@ static Built build(const std::vector<int>& word, bool urlBase) {
             int m = add_ref(pos, C_MAINSCHEMA, mraw, "", b.base, -1);
             std::string leaf, directive, doctype;
             int cls;
-            if (kind == K_IMPORT) { cls = C_IMPORT; directive = "<xs:import namespace=\"urn:i" + p + "\" schemaLocation=\"" + raw + "\"/>"; leaf = schema_doc("urn:i" + p, "y" + p); }
-            else if (kind == K_INCLUDE) { cls = C_INCLUDE; directive = "<xs:include schemaLocation=\"" + raw + "\"/>"; leaf = schema_doc(mtns, "y" + p); }
-            else if (kind == K_REDEFINE) { cls = C_REDEFINE; directive = "<xs:redefine schemaLocation=\"" + raw + "\"/>"; leaf = schema_doc(mtns, "y" + p); }
+            if (kind == K_IMPORT) { cls = C_IMPORT; directive = "<xs:import namespace=\"urn:i" + p + "\" schemaLocation=\"" + raw + "\"/>"; leaf = schema_doc("urn:i" + p, "y" + p, "", leafDoctype); }
+            else if (kind == K_INCLUDE) { cls = C_INCLUDE; directive = "<xs:include schemaLocation=\"" + raw + "\"/>"; leaf = schema_doc(mtns, "y" + p, "", leafDoctype); }
+            else if (kind == K_REDEFINE) { cls = C_REDEFINE; directive = "<xs:redefine schemaLocation=\"" + raw + "\"/>"; leaf = schema_doc(mtns, "y" + p, "", leafDoctype); }
             else { cls = C_SCHEMADTD; doctype = "<!DOCTYPE xs:schema SYSTEM \"" + raw + "\">"; leaf = "<!ATTLIST xs:schema q CDATA #IMPLIED>"; }
             b.files[b.refs[m].target] = schema_doc(mtns, "z" + p, directive, doctype);
             int r = add_ref(pos, cls, raw, "", b.refs[m].abs, m);
             b.files[b.refs[r].target] = leaf;
             if (nested) decoy(raw, leaf);
+            if (leafDt) {
+                int q = add_ref(pos, C_SCHEMADTD, "q" + p + ".dtd", "", b.refs[r].abs, r);
+                b.files[b.refs[q].target] = "<!ATTLIST xs:schema q CDATA #IMPLIED>";
+            }
             break;
         }
         }
@@ -582,6 +598,12 @@ static void run_case(uint64_t idx, Ctx& cx) {
     if (rd.mode == 1)
         for (size_t i = 0; i < b.refs.size(); i++)
             if (b.refs[i].depth == 0) { res.supplies[b.refs[i].raw] = Supply{b.files[b.refs[i].target], b.refs[i].abs}; supplied[i] = true; }
+    if (rd.mode == 3) {
+        std::vector<bool> hasChild(b.refs.size(), false);
+        for (auto& r : b.refs) if (r.parent >= 0) hasChild[r.parent] = true;
+        for (size_t i = 0; i < b.refs.size(); i++)
+            if (hasChild[i]) { res.supplies[b.refs[i].raw] = Supply{b.files[b.refs[i].target], b.refs[i].abs}; supplied[i] = true; }
+    }
 
     g_libc_calls = 0; g_libc_first[0] = 0;
     Outcome o = do_parse(c, b, res);
@@ -620,8 +642,9 @@ static void run_case(uint64_t idx, Ctx& cx) {
             if (!w) { viol("access-not-permitted", ev + " (" + ClsName[r.cls] + " is not to be fetched under this configuration)"); continue; }
             if (c.disableDefRes) {
                 // adjudicated library defect (see KNOWN_DEFECTS): everything read while a schema document is parsed by the internal XSDDOMParser
-                if (r.cls == C_SCHEMADTD) known(1, ev);
-                else viol("default-access-despite-disableDefaultEntityResolution", ev);
+                // (accesses made while a schema document is read by the internal XSDDOMParser used to be counted under the defect
+                // schema-doctype-ignores-disable-default-entity-resolution; repaired, so they are ordinary violations again)
+                viol("default-access-despite-disableDefaultEntityResolution", ev);
                 continue;
             }
             if (supplied[ri]) { viol("default-access-although-resolver-supplied-source", ev); continue; }
